@@ -195,6 +195,9 @@ func (ex *Exec) verifyFunc() (res *FuncResult) {
 		res.Notes = append(res.Notes, n)
 	}
 	sort.Strings(res.Notes)
+	for _, a := range ex.autoInvs {
+		res.Notes = append(res.Notes, "auto frame invariant proved inductive: "+a)
+	}
 	for e := range ex.assumedExt {
 		res.Externs = append(res.Externs, e)
 	}
@@ -370,6 +373,9 @@ func (ex *Exec) instantiateGhostFuns(st *State, con *Contract, c *SpecCtx, ghost
 	if !own {
 		// lemmas proved in the callee are available at the call site
 		for _, l := range con.Lemmas {
+			if l.Manual {
+				continue
+			}
 			t := ex.lemmaTerm(c, ghosts, l, nil)
 			st.assume(t)
 		}
@@ -403,7 +409,13 @@ func (ex *Exec) proveLemmas(st *State, con *Contract) {
 		c := ex.fnCtx(ex.pre, nil)
 		inst := map[string]*Term{}
 		var facts []*Term
-		facts = append(facts, st.facts...)
+		if l.Pure {
+			for _, f := range st.facts {
+				facts = append(facts, quantifierFreeConjuncts(f)...)
+			}
+		} else {
+			facts = append(facts, st.facts...)
+		}
 		for _, p := range l.Params {
 			t := c.resolveType(p.Type)
 			inst[p.Name] = Fresh("lem."+p.Name, flatten(t)[0].Sort)
@@ -424,7 +436,9 @@ func (ex *Exec) proveLemmas(st *State, con *Contract) {
 		name := fmt.Sprintf("%s#lemma[%s]", ex.Fn.Key, l.Name)
 		ex.Obls = append(ex.Obls, &Obligation{Name: name, Kind: "lemma", Func: ex.Fn.Key, Desc: l.Name, Facts: facts, Goal: goal, Props: ex.curProps})
 		// available afterwards
-		st.assume(ex.lemmaTerm(c, ex.ghosts, l, nil))
+		if !l.Manual {
+			st.assume(ex.lemmaTerm(c, ex.ghosts, l, nil))
+		}
 	}
 }
 
@@ -486,4 +500,79 @@ func (ex *Exec) globalKnowledge(o *types.Var, v Val) []*Term {
 		}
 	}
 	return out
+}
+
+func hasQuantifier(t *Term) bool {
+	seen := map[int]bool{}
+	var rec func(t *Term) bool
+	rec = func(t *Term) bool {
+		if t.kind == 2 {
+			return true
+		}
+		if seen[t.id] {
+			return false
+		}
+		seen[t.id] = true
+		for _, a := range t.args {
+			if rec(a) {
+				return true
+			}
+		}
+		return false
+	}
+	return rec(t)
+}
+
+func quantifierFreeConjuncts(f *Term) []*Term {
+	if f.kind == 0 && f.op == "and" {
+		var out []*Term
+		for _, a := range f.args {
+			out = append(out, quantifierFreeConjuncts(a)...)
+		}
+		return out
+	}
+	if hasQuantifier(f) {
+		return nil
+	}
+	return []*Term{f}
+}
+
+// applyUses assumes ground instances of proved lemmas at a program point.
+func (ex *Exec) applyUses(st *State, uses []*LemmaUse, when string, pos token.Pos) {
+	con := ex.curFn.Contract
+	if con == nil {
+		return
+	}
+	for _, u := range uses {
+		if u.When != when {
+			continue
+		}
+		var lem *Lemma
+		for _, l := range con.Lemmas {
+			if l.Name == u.Name {
+				lem = l
+			}
+		}
+		if lem == nil || len(lem.Params) != len(u.Args) {
+			panic(undecided{fmt.Sprintf("%s: use of unknown lemma %s", ex.curFn.Key, u.Name)})
+		}
+		c := ex.specCtxAt(st, pos)
+		inst := map[string]*Term{}
+		func() {
+			defer func() {
+				if r := recover(); r != nil {
+					if sf, ok := r.(specFail); ok {
+						panic(undecided{fmt.Sprintf("%s: contract error in use %s: %s", ex.curFn.Key, u.Name, string(sf))})
+					}
+					panic(r)
+				}
+			}()
+			for i, p := range lem.Params {
+				inst[p.Name] = c.evalTerm(u.Args[i])
+			}
+		}()
+		// the lemma body is stated over the pre-state (ghost functions); parameters are substituted
+		lc := ex.fnCtx(ex.pre, nil)
+		st.assume(ex.lemmaTerm(lc, ex.ghosts, lem, inst))
+	}
 }
